@@ -3,6 +3,40 @@
    a computable sufficient test for it (evaluated by the acceptor on the final state of every trace)
    and shows that a single-step change (one voter added or removed) keeps consecutive configurations
    overlapping. *)
+(* STATUS OF THE FULL MEMBERSHIP-CHANGE PROOF (what is proved, what is missing).
+
+   1. [Overlap] over ALL pairs of voter lists ever used is NOT an invariant of legal runs: LCChecked.ex2_run
+      is a run {1,2,3} -> +4 -> -3 (one change at a time, each configuration used for a commit) in which
+      {1,2,3} and {1,2,4} have disjoint majorities.  So "reachable -> Overlap" cannot be the target.
+   2. What replaces it, and IS proved: four decidable per-step conditions checked by the acceptor on
+      every accepted step (Inv.NoClash, Inv.CommitOK, Acceptor.elect_lc_ok, Acceptor.commit_lc_ok) imply
+      all invariants and leader completeness for the committed log with no assumption on configurations
+      (AcceptorSound.accepted_trace_inv, Theorems *_checked, LCChecked.accepted_trace_leader_completeness).
+   3. What is missing for "every run of the fork's conf-change discipline satisfies the four conditions":
+      the model would have to be extended with
+        (a) per node cidx = number of log entries whose conf changes it has applied, conf = the initial
+            configuration with the conf entries of firstn cidx log applied, cidx <= commit (addNode /
+            removeNode are called from ApplyConfChange for committed entries, in log order);
+        (b) Campaign only if no conf entry lies in (cidx, commit] (raft.hup);
+        (c) a leader appends a conf entry only if cidx covers every earlier conf entry of its log
+            (pendingConf), hence only after the previous one is committed;
+        (d) Replicate carries the leader's commit index: after adopting [full] the follower's commit is at
+            least min (length full) (commit of the leader when the last entry of full was appended)
+            (MsgApp.Commit) - the message-free model has no such link, it needs a ghost
+            tcommit : term -> length -> commit.
+      Lemmas that then look routine: (A) if a log holds two conf entries at i1 < i2 its node has
+      commit >= i1 (from c, d); (B) a candidate has at most one conf entry beyond cidx (from A, b);
+      (C) all configurations are prefixes of one sequence C0, C1, ... (from state-machine safety).
+      THE MISSING LEMMA (D): if c wins term u under configuration C_j while a conf entry establishing
+      C_(j+2) is committed (at a term t < u), then the log c was elected with contains that entry.
+      (With (A),(B) this contradicts c's configuration being C_j, so any two configurations that count
+      majorities for the same term, or for a commit and a later election, are equal or adjacent, and
+      single_step_add_overlap / single_step_remove_overlap give the intersections NoClash, CommitOK,
+      elect_lc_ok, commit_lc_ok need.)  (D) is leader completeness for that conf entry, whose proof
+      needs a quorum intersection between the configuration it was committed under (C_(j+1)) and C_j -
+      adjacent, fine - but only AFTER knowing that every leader between t and u also ran under an
+      adjacent configuration: a mutual induction on (term, position in the configuration sequence)
+      between leader completeness and configuration adjacency.  It was not attempted. *)
 From Coq Require Import List Arith Bool NArith Lia Permutation.
 From ZV Require Import RaftAbs.ListFacts RaftAbs.Model RaftAbs.Inv RaftAbs.Acceptor.
 Import ListNotations.
